@@ -26,6 +26,9 @@ type Facts struct {
 	EJ, EX []int
 	EJFail bool
 	EXFail bool
+	// EXMask[i]: when the i-th Write of xml.Encoder.Encode fails, Encode still runs into its own
+	// marshalling error and returns that instead of the writer's (only measured when EXFail; nil = never)
+	EXMask []bool
 }
 
 // Op is one call on the Response.
@@ -74,13 +77,14 @@ type Event struct {
 	Offered  int
 	Accepted int
 	Failed   bool
+	Err      int // identity of the error value the Write returned: 0 = nil, equal tags = the same value
 }
 
 func (e Event) Sx() *sx.Node {
 	if e.Header {
 		return sx.K("h", sx.N(e.Status))
 	}
-	return sx.K("w", sx.N(e.Offered), sx.N(e.Accepted), sx.B(e.Failed))
+	return sx.K("w", sx.N(e.Offered), sx.N(e.Accepted), sx.N(e.Err))
 }
 
 // Obs is what was observed after one call.
@@ -88,6 +92,9 @@ type Obs struct {
 	Status int
 	Length int
 	RetErr bool
+	// Ret names the error the call returned: "0" nil, "<tag>" the very value a Write beneath the
+	// Response returned (the tag of that event), "x" anything else
+	Ret    string
 	ErrSet bool
 	Events []Event
 }
@@ -110,7 +117,14 @@ func entSx(f Facts) *sx.Node {
 	for _, c := range f.EX {
 		ex.List = append(ex.List, sx.N(c))
 	}
-	return sx.K("v", on(f.PJ), on(f.PX), ej, ex)
+	if len(f.EXMask) == 0 {
+		return sx.K("v", on(f.PJ), on(f.PX), ej, ex)
+	}
+	exm := sx.K("exm")
+	for _, m := range f.EXMask {
+		exm.List = append(exm.List, sx.B(m))
+	}
+	return sx.K("v", on(f.PJ), on(f.PX), ej, ex, exm)
 }
 
 // Sx encodes the op for the driver (entity values as their marshalling facts).
